@@ -328,6 +328,7 @@ namespace bloch::runtime {
         RuntimeField* findInstanceField(RuntimeClass* cls, const std::string& name);
         RuntimeField* findStaticField(RuntimeClass* cls, const std::string& name);
         void initStaticFields(RuntimeClass* cls);
+        const Value& readStatic(RuntimeClass* owner, size_t idx);
         void ensureGcThread();
         void requestGc();
         void runCycleCollector();
